@@ -6,6 +6,8 @@
                           or "blocked i" when token i is not enabled
      N hexsock hexpid hexseed -> the byte-string program of a daemon configured with these names (StartPathModel.cprog):
                           every step with the name it uses; the bind step as bind:<refuse>:<name>
+     L umask           -> mode of the log file a background munged creates when invoked under that umask (decimal), and
+                          whether the next life accepts it (StartLogModel)
      S                 -> sizes: sun_path, strlcpy size, bound of the length test, longest lock name
      C k conf.. ; tok.. ; name..  -> byte-string model: k processes, conf = hexsock,hexpid,hexseed each; schedule as
                           for R; then for every queried name (hex): <name>=<-|reg|sock>:<listener>:<lock holder>:<written by>
@@ -129,6 +131,8 @@ let line l =
   match split_on ' ' l with
   | ["N"; a; b; c] ->
       Printf.printf "N %s\n" (String.concat " " (List.map cprim_s (cprog { c_sock = unhex a; c_pid = unhex b; c_seed = unhex c })))
+  | ["L"; u] -> let m = log_created_mode (n_of_int (int_of_string u)) in
+      Printf.printf "L created=%04o accepted=%d\n" (int_of_n m) (b (log_accepts m))
   | ["S"] -> Printf.printf "S sun_path=%d copy_size=%d len_bound=%d lock_name_max=%d\n"
                (int_of_n sun_path_cap) (int_of_n sock_copy_size) (int_of_n sock_len_bound) (int_of_n lock_name_max)
   | ("X" | "Y" as cmd) :: k :: rest ->
